@@ -136,6 +136,8 @@ def _apply_dump_mut(recs, op, expect):
                 expect.append((i, "response." + attr, lambda f: getattr(f.response.data, attr), val))
         return True
     if what == "client":
+        if typ == "websocket":
+            return False  # format-7 WebSocketFlow records are merged into their handshake flow; its connection data wins
         cc = _get(r, "client_conn")
         if not isinstance(cc, dict):
             return False
@@ -428,8 +430,9 @@ def strategy(ctx):
     pool = fg.Pool(ctx.shard_seed, n=32)
     old_kinds = fg.flows(kinds=("http", "ws", "tcp"), backup=False, pool=pool)
     all_kinds = fg.flows(backup=False, pool=pool)
-    dump = st.fixed_dictionaries({"mode": st.just("dump"), "file": st.integers(0, len(FILES) - 1),
-                                  "muts": st.lists(_dump_mut, max_size=3)})
+    # the seven dumpfile-* files (formats 0.11 .. 20) are drawn three times as often as the data/flows/*.mitm files
+    dump = st.fixed_dictionaries({"mode": st.just("dump"), "file": st.sampled_from(list(range(7)) * 3 + list(range(7, len(FILES)))),
+                                  "muts": st.lists(_dump_mut, max_size=4)})
     down_old = st.fixed_dictionaries({"mode": st.just("down"), "flow": old_kinds, "version": st.sampled_from([12, 13, 14, 15, 16, 17]), "flags": _flags})
     down_new = st.fixed_dictionaries({"mode": st.just("down"), "flow": all_kinds, "version": st.sampled_from([18, 19, 20, 21]), "flags": _flags})
     future = st.fixed_dictionaries({"mode": st.just("future"), "flow": fg.flows(small=True, backup=False, pool=pool),
